@@ -292,6 +292,11 @@ func (c *caseRun) run() {
 				}
 				w.follow = nil
 			}
+			if r.Chance(1, 3) { // calls between generated contracts, decided by the caller's cached manifest
+				if p := c.forwardOp(); p != nil {
+					ops = append(ops, p)
+				}
+			}
 		}
 		// a payer that cannot afford the transaction makes no transaction
 		kept := ops[:0]
@@ -396,7 +401,7 @@ func (c *caseRun) run() {
 					w.mgmtToks = map[string]bool{}
 				}
 				f := strings.Fields(p.line)
-				w.mgmtToks[f[len(f)-1]] = true
+				w.mgmtToks[f[4]] = true
 			}
 			o.Count("op:" + p.kind)
 			o.Count("result:" + p.result)
@@ -413,6 +418,9 @@ func (c *caseRun) run() {
 				if p.model {
 					line += " oog"
 				}
+			}
+			if os.Getenv("LEDGER_DEBUG") != "" && p.result == "fault" {
+				fmt.Fprintf(os.Stderr, "fault %s: %s\n", p.line, aers[0].FaultException)
 			}
 			if guardedKinds[p.kind] {
 				if p.result == "fault" {
@@ -905,6 +913,11 @@ func (c *caseRun) genOp() *op {
 		}
 		return w.opInvoke(si)
 	case 11:
+		if r.Chance(1, 2) {
+			if p := c.forwardOp(); p != nil {
+				return p
+			}
+		}
 		for d := 0; d < len(w.slots); d++ {
 			si := (r.Intn(len(w.slots)) + d) % len(w.slots)
 			if w.slots[si].deployed {
@@ -976,6 +989,35 @@ func (c *caseRun) junk(blockTxs []*transaction.Transaction) {
 			c.o.Count("B.junk-rejected")
 		}
 	}
+}
+
+// forwardOp: a call from one generated contract to another one (both deployed at some time).
+func (c *caseRun) forwardOp() *op {
+	w, r := c.w, c.r
+	var dep []int
+	for i, sl := range w.slots {
+		if sl.kv != nil {
+			dep = append(dep, i)
+		}
+	}
+	if len(dep) < 2 {
+		return nil
+	}
+	a := dep[r.Intn(len(dep))]
+	b := dep[r.Intn(len(dep))]
+	if a == b {
+		b = dep[(r.Intn(len(dep)-1)+1+indexOf(dep, a))%len(dep)]
+	}
+	return w.opForward(a, b, []string{"put", "put", "get", "del", "ver"}[r.Intn(5)])
+}
+
+func indexOf(l []int, x int) int {
+	for i, v := range l {
+		if v == x {
+			return i
+		}
+	}
+	return 0
 }
 
 var _ = block.Block{}
